@@ -1156,6 +1156,48 @@ def register(reg):
                  'text-db-tables']
     c12 = {k: units[k] for k in c12_names}
     c12['text-db-callable:fmt_equation_environment'] = callable_units['text-db-callable:fmt_equation_environment']
+
+    # "with keep_comments every comment appears", at every nesting position, needs every argument of a macro / environment /
+    # specials node to be rendered: a comment may stand inside any of them.  A replacement STRING renders exactly the arguments
+    # its placeholders name (none at all for a plain string), so this clause is false on the tree as given: known finding.
+    @reg.spec('every_argument_is_rendered')
+    def every_argument_is_rendered(it, node):
+        got = [a for nm, a in it.ctx.ghost.get('render_calls', []) if nm in ('_groupnodecontents_to_text', 'node_to_text', 'nodelist_to_text')]
+        nd = node.fields.get('nodeargd')
+        have = [a for a in (nd.fields['argnlist'].items if nd is not None else []) if a is not None]
+        return all(any(g is h for g in got) for h in have)
+    c_asr12 = Contract(ASR, setup=setup_asr,
+                       requires=[('a-replacement-is-given', 'callable(simplify_repl) or len(simplify_repl) >= 1')],
+                       ensures=[('internal:a-replacement-string-renders-every-argument-so-that-a-comment-inside-any-of-them-can-appear',
+                                 'implies(not callable(simplify_repl), every_argument_is_rendered(node))')], modifies=[])
+    c12['apply_simplify_repl[every argument is rendered]'] = FunctionUnit(c_asr12, name='apply_simplify_repl[every argument is rendered]',
+                                                                         split_depth=4)
+    contracts.REPLAYERS['apply_simplify_repl[every argument is rendered]'] = replay
+
+    # a math ENVIRONMENT is subject to the math_mode policy exactly like delimiter math: its renderer hands the node to
+    # math_node_to_text (whose unit states the policy: 'remove' contributes nothing, 'verbatim' the source, ...) whatever the mode
+    def setup_eqenv(it):
+        l2t = mk_l2t(it)                                   # any of the four math modes
+        calls = it.ctx.ghost.setdefault('math_render_calls', [])
+
+        def math_node_to_text(it2, a, k):
+            r = it2.fresh_str('math_node_to_text')
+            calls.append((a[0] if a else k.get('node'), r))
+            return r
+        l2t.fields['math_node_to_text'] = Builtin('math_node_to_text', math_node_to_text)
+        env = mknode(it, 'LatexEnvironmentNode', environmentname=sym_str(it, 'environmentname'), nodelist=PyList([]),
+                     nodeargd=None, spec=None, latex_walker=None, pos=0, pos_end=sym_int(it, 'pos_end', lo=0))
+        return {'envnode': env, 'l2tobj': l2t}
+
+    @reg.spec('rendered_by_the_math_policy')
+    def rendered_by_the_math_policy(it, envnode, result):
+        calls = it.ctx.ghost.get('math_render_calls', [])
+        return len(calls) == 1 and calls[0][0] is envnode and result is calls[0][1]
+    c_eq = Contract('pylatexenc.latex2text.fmt_equation_environment', setup=setup_eqenv,
+                    ensures=[('internal:a-math-environment-is-rendered-by-math_node_to_text-in-every-math-mode',
+                              'rendered_by_the_math_policy(envnode, result)')], modifies=[])
+    c12['fmt_equation_environment[the math policy applies]'] = FunctionUnit(c_eq, name='fmt_equation_environment[the math policy applies]')
+    contracts.REPLAYERS['fmt_equation_environment[the math policy applies]'] = replay
     c03 = dict(units)
     contracts.EXTRA_ASSUMPTIONS['C07'] = A_L2T + [
         "A-TREE: the rendering recursion is on strictly smaller subtrees of a finite node tree (termination and the structural "
